@@ -319,6 +319,10 @@ def collect(prop, repo):
                     return 'undecided', 'skeleton: %s' % e
                 if sk.outer_cells:
                     return 'failed', 'observable() creates state cell(s) %s outside the closure passed to Observable::create: shared by every subscription made through the same Observable value' % sorted(sk.outer_cells)
+                for nm, txt in sk.outer_lets.items():
+                    t = re.sub(r'\s+', '', txt)
+                    if re.search(r'\.(write|read)\(\)', t):
+                        return 'failed', 'observable() reads or advances shared state once per Observable value instead of once per subscription (`%s` outside the closure passed to Observable::create): two subscriptions made through the same handle get the same value (e.g. the same registration key)' % re.sub(r'\s+', ' ', txt)[:160]
             ob('%s.observable.per_subscription_state' % os.path.basename(rel)[:-3], rel, f)
     if prop == 'C10':
         # AsyncSubject = inner Subject followed by take_last(1): both parts are under contract separately (Kani Subject harnesses; Verus
